@@ -132,6 +132,116 @@ Definition value_is (t : list Z) (i s : Z) : bool :=
 (* valid (precision, scale) pairs *)
 Definition valid_ps (p s : Z) : bool := (0 <=? s) && (s <=? p) && (p <=? 38).
 
+(* ---------- histories on one decimal ----------
+   The property speaks about the value, precision and scale a decimal HAS when it is formatted.  A decimal is
+   (precision, scale, unscaled integer) -- or has no integer at all (a struct literal), about which the property
+   says nothing.  What each operation means for these three is fixed by its documentation:
+     SetInt64 n        the integer becomes n
+     SetBytes b        the integer becomes the big-endian unsigned value of b
+     Negate            the integer changes its sign
+     Precision = p / Scale = s   (direct assignment of the exported fields) the integer is untouched
+     SetString t       as NewDecimalString at the current precision and scale (parse_ok), untouched on error
+     String and the read accessors change nothing.
+   After EVERY step the fields read back must be these, and whenever the decimal is inside the property
+   (valid precision/scale, at most precision digits) the text it prints must have the regular shape, denote
+   exactly integer / 10^scale and parse back to an equal decimal -- whatever happened to the object before. *)
+Record hstate := mk_hstate { hp : Z; hs : Z; hv : option Z }.
+
+Definition be_val (b : list Z) : Z := fold_left (fun a x => 256 * a + x) b 0.
+
+Definition in_property (st : hstate) : bool :=
+  match hv st with
+  | Some i => valid_ps (hp st) (hs st) && (Z.abs i <? 10 ^ hp st)
+  | None => false
+  end.
+
+Definition text_judged (st : hstate) (text : tree) (rt : Z) : bool :=
+  match hv st with
+  | Some i =>
+      if in_property st then
+        match text with
+        | TB t => shape_ok t && value_is t i (hs st) && (rt =? 1)
+        | _ => false
+        end
+      else true
+  | None => true
+  end.
+
+Definition tree_val (t : tree) : option Z := match t with TI x => Some x | _ => None end.
+Definition same_val (t : tree) (v : option Z) : bool :=
+  match t, v with
+  | TI x, Some y => x =? y
+  | TL [], None => true
+  | _, _ => false
+  end.
+
+(* the state the property demands after operation o, given what the object answered (obs), the integer read
+   back afterwards (vi) and the text printed afterwards; None = the answer is not admitted.  Where the property
+   is silent (operations on a decimal without integer, SetString at an invalid precision/scale) the integer
+   read back is taken over. *)
+Definition hstep (st : hstate) (o : op) (obs vi text : tree) : option hstate :=
+  let p := hp st in let s := hs st in
+  match o with
+  | OString => if tree_eqb obs text then Some st else None          (* the same state printed twice *)
+  | ORead =>
+      match hv st with
+      | Some i =>
+          match obs with
+          | TL [TI ng; TI iv; TI av; TI _; TI cmp] =>
+              if (ng =? (if i <? 0 then 1 else 0)) && (iv =? i) && (av =? Z.abs i) && (cmp =? 1) then Some st else None
+          | _ => None
+          end
+      | None => Some st
+      end
+  | OSetInt64 n =>
+      match hv st with Some _ => Some (mk_hstate p s (Some n)) | None => Some (mk_hstate p s (tree_val vi)) end
+  | OSetBytes b =>
+      match hv st with Some _ => Some (mk_hstate p s (Some (be_val b))) | None => Some (mk_hstate p s (tree_val vi)) end
+  | ONegate =>
+      match hv st with Some i => Some (mk_hstate p s (Some (- i))) | None => Some (mk_hstate p s (tree_val vi)) end
+  | OPrec p' => Some (mk_hstate p' s (hv st))
+  | OScale s' => Some (mk_hstate p s' (hv st))
+  | OBoth p' s' => Some (mk_hstate p' s' (hv st))
+  | OSetString t =>
+      if valid_ps p s then
+        match obs with
+        | TI e =>
+            if e =? 0 then
+              match vi with
+              | TI v' => if parse_ok p s t (Some v') then Some (mk_hstate p s (Some v')) else None
+              | _ => None
+              end
+            else if e =? 2 then (if parse_ok p s t None then Some st else None)
+            else None
+        | _ => None
+        end
+      else Some (mk_hstate p s (tree_val vi))
+  | OBad => None
+  end.
+
+(* one recorded step (obs Precision Scale integer text rt) *)
+Definition hjudge (st : hstate) (o : op) (rec : tree) : option hstate :=
+  match rec with
+  | TL [obs; TI rp; TI rs; vi; text; TI rt] =>
+      match hstep st o obs vi text with
+      | Some st' =>
+          if (rp =? hp st') && (rs =? hs st') && same_val vi (hv st') && text_judged st' text rt then Some st' else None
+      | None => None
+      end
+  | _ => None
+  end.
+
+Fixpoint hist_ok (st : hstate) (ops : list op) (recs : list tree) : bool :=
+  match ops, recs with
+  | [], [] => true
+  | o :: ops', r :: recs' =>
+      match hjudge st o r with
+      | Some st' => hist_ok st' ops' recs'
+      | None => false
+      end
+  | _, _ => false
+  end.
+
 (* ---------- dispatch ----------
    fn 1: String.            input (p s i)       output (2) if NewDecimal fails, else
                             (text text' i' rt): String() twice, the value afterwards, and whether
@@ -139,7 +249,10 @@ Definition valid_ps (p s : Z) : bool := (0 <=? s) && (s <=? p) && (p <=? 38).
    fn 2: NewDecimalString.  input (p s text)    output (2) | (0 i text-of-result)
    fn 3: NewDecimal.        input (p s)         output (0) | (2)
    fn 4: SetString on a decimal holding i0.  input (p s i0 text)  output (2) if NewDecimal fails, else
-                            (e i'): e = 0|2, i' = value afterwards *)
+                            (e i'): e = 0|2, i' = value afterwards
+   fn 5: a history on ONE decimal.  input (kind p s (op ...)): kind 0 = NewDecimal(p, s), 1 = &Decimal{Precision: p,
+                            Scale: s}; operations as Model.op_of_tree.  output (2) if the construction fails, else
+                            (0 (record ...)), one record (obs Precision Scale integer text rt) per operation *)
 Definition res_tree (r : res) : tree := match r with Ok i => TL [TI 0; TI i] | Err => TL [TI 2] end.
 
 Definition run (fn : Z) (i : tree) : tree :=
@@ -168,6 +281,13 @@ Definition run (fn : Z) (i : tree) : tree :=
         | Err => TL [TI 2; TI v0]
         end
       else TL [TI 2]
+  | 5 =>
+      let kind := t_int (t_nth 0 i) in let p := t_int (t_nth 1 i) in let s := t_int (t_nth 2 i) in
+      let ops := map op_of_tree (t_list (t_nth 3 i)) in
+      match init_state kind p s with
+      | Some st => TL [TI 0; TL (trace st ops)]
+      | None => TL [TI 2]
+      end
   | _ => tbad
   end.
 
@@ -205,5 +325,15 @@ Definition spec (fn : Z) (i o : tree) : bool :=
         | _ => false
         end
       else tree_eqb o (TL [TI 2])
+  | 5 =>
+      let kind := t_int (t_nth 0 i) in let p := t_int (t_nth 1 i) in let s := t_int (t_nth 2 i) in
+      let ops := map op_of_tree (t_list (t_nth 3 i)) in
+      if (kind =? 0) && negb (valid_ps p s) then tree_eqb o (TL [TI 2])
+      else if (kind =? 0) || (kind =? 1) then
+        match o with
+        | TL [TI 0; TL recs] => hist_ok (mk_hstate p s (if kind =? 0 then Some 0 else None)) ops recs
+        | _ => false
+        end
+      else false
   | _ => false
   end.
